@@ -3,8 +3,10 @@ package checks
 import (
 	"fmt"
 	"math/rand"
+	"os"
 	"sync"
 	"sync/atomic"
+	"testing"
 	"time"
 
 	"github.com/anishathalye/porcupine"
@@ -198,4 +200,20 @@ func concurrentRelayers(rec *mon.Recorder, seed int64, run int) {
 	}
 	cbMu.Unlock()
 	_ = w
+}
+
+// TestC02Race: the concurrent-relayer workload under the race detector (run.sh thorough).
+func TestC02Race(t *testing.T) {
+	if os.Getenv("VERIF_RACE_PASS") == "" {
+		t.Skip("only run by run.sh in the race pass")
+	}
+	rec := mon.New("C02race", "exploration", "race pass")
+	for run := 0; run < 12; run++ {
+		concurrentRelayers(rec, mon.Seed(), 1000+run)
+	}
+	fmt.Printf("RACE-PASS concurrent_histories=%d submissions=%d unlisted_violations=%d\n", rec.Get("concurrent-histories"), rec.Get("concurrent-submissions"), rec.Unlisted())
+	if rec.Unlisted() > 0 {
+		fmt.Println("VIOLATION property=C02 replay=race-pass:concurrent-relayers")
+		t.Fail()
+	}
 }
